@@ -3,6 +3,7 @@ import syncfam
 from vlib import finish
 
 ASSUME = [
+    "model -> code conformance: the 28561 (old destination, source) pairs of spec/DiffMergeMC.tla are written by TLC with the changes the algorithm model emits and run as real transfers (quick: every 7th); the receiver must notify exactly those (kind, path) pairs - a regular file is always announced as add, deletes below a deleted path are optional",
     "ContentHasher is the harness's transparent recorder: its digest encodes (hash of the stat it was created for, length and hash of the bytes fed)",
     "histories as in C02 plus the (source, prior destination) cases of C01; seeded by VERIF_SEED",
     "deletes below an already reported deleted directory are permitted, only top-most deletes are required",
